@@ -24,13 +24,24 @@ Local Open Scope N_scope.
 
 (* ------------------------------------------------------------------ bounded token streams *)
 
-(* every SOH-free run of [l] (continuing a run of k bytes) is shorter than cap.  Position
-   independent: MessageBase::decode may restart tokenising anywhere (after a fixed-width data
-   field), so the bound has to hold for the tag/value seen from any offset. *)
-Fixpoint run_ok (cap k : N) (l : list N) : bool :=
+(* Position independent bound: MessageBase::decode may restart tokenising anywhere (after a
+   fixed-width data field), so the tag and the value seen from ANY offset have to fit:
+     - every run of digits is shorter than tcap (a tag read from any offset is a suffix of one),
+     - from every '=' fewer than vcap bytes follow before the next SOH / the end (a value read
+       from any offset starts after some '=' of its SOH-free segment; the first one is the worst).
+   dk = length of the digit run ending here, vk = bytes since the first '=' of the segment. *)
+Fixpoint run_ok (tcap vcap dk : N) (vk : option N) (l : list N) : bool :=
   match l with
   | [] => true
-  | c :: r => if c =? SOH then run_ok cap 0 r else (k + 1 <? cap) && run_ok cap (k + 1) r
+  | c :: r =>
+    if c =? SOH then run_ok tcap vcap 0 None r
+    else
+      let dk' := if is_digit c then dk + 1 else 0 in
+      let vk' := match vk with
+                 | Some k => Some (k + 1)
+                 | None => if c =? EQC then Some 0 else None
+                 end in
+      (dk' <? tcap) && match vk' with Some k => k <? vcap | None => true end && run_ok tcap vcap dk' vk' r
   end.
 
 (* the first three tokens go through extract_header's small buffers: an independent scanner *)
@@ -71,10 +82,11 @@ Definition hdr_bounded (l : list N) : bool :=
      - the input is a string of bytes shorter than 2^32 with at least the 7 trailing bytes
        "10=ddd|" factory addresses unconditionally;
      - BeginString / BodyLength / MsgType tokens: tag < 32 digits, values < 2048 / 32 / 32 bytes;
-     - everywhere: no 2048 consecutive bytes without SOH (every tag and value < 2048 bytes). *)
+     - everywhere: every run of digits < 2048 and every value (from the first '=' after an SOH
+       to the next SOH) < 2048 bytes. *)
 Definition tokens_bounded (bytes : list N) : bool :=
   forallb (fun b => b <? 256) bytes && (7 <=? lenN bytes) && (lenN bytes <? 4294967296) &&
-  hdr_bounded bytes && run_ok MAX_FLD_LENGTH 0 bytes.
+  hdr_bounded bytes && run_ok MAX_FLD_LENGTH MAX_FLD_LENGTH 0 None bytes.
 
 (* ------------------------------------------------------------------ schema conditions *)
 Definition is_some {A} (o : option A) : bool := match o with Some _ => true | None => false end.
